@@ -204,12 +204,25 @@ func VerifC25IntDivUint64() {
 		return
 	}
 	nd.Assert("c25.intdiv.uint64.no-error", err == nil)
-	q, ok := res.(uint64)
+	_, ok := res.(uint64)
 	nd.Assert("c25.intdiv.uint64.kind", ok)
-	if nd.And(l < uint64(nd.Bound(256, 4096)), r < 256) {
-		lo := q * r
-		nd.Assert("c25.intdiv.uint64.small.floor", nd.And(q <= l, nd.And(lo <= l, l-lo < r)))
-	}
+}
+
+// Exactness of the unsigned quotient: divisor enumerated concretely (1..4,
+// thorough 1..12), dividend symbolic below 2^16 (thorough 2^32) — see
+// VerifC25IntDivInt64Exact for why the divisor is not symbolic.
+func VerifC25IntDivUint64Exact() {
+	r := uint64(nd.IntRange("r", 1, nd.Bound(4, 12)))
+	l := nd.Uint64("l")
+	nd.Assume(l < uint64(nd.Bound(1<<16, 1<<32)))
+	res, err := intDiv(nil, l, r)
+	nd.Reach("c25.intdiv.uint64.exact")
+	nd.Assert("c25.intdiv.uint64.small.no-error", err == nil)
+	q, ok := res.(uint64)
+	nd.Assert("c25.intdiv.uint64.small.kind", ok)
+	nd.Assert("c25.intdiv.uint64.small.magnitude", q <= l)
+	lo := q * r
+	nd.Assert("c25.intdiv.uint64.small.floor", nd.And(lo <= l, l-lo < r))
 }
 
 func VerifC25UnaryMinus() {
